@@ -36,3 +36,8 @@ claim('C14',
   'bounded model checking: (a) SAFE edition == FAST edition == documented value for mem/ww/CLZ/CTZ and (shared with C05) the modular and reduction routines; (b) data-independent control flow by self-composition: the program is instrumented with goto-instrument --branch, the routine runs twice with equal lengths and independent arbitrary secrets, and the solver must show the two branch traces identical - for the SAFE mem/ww/zz routines, the belt block cipher, bash-f, and the MAC/HMAC/hash/DWP/CHE/bash verification paths',
   'C-source (goto program) level only: branches introduced or removed by the optimising compiler are not visible; libc compare functions modelled as early-exit loops; modes run over an uninterpreted cipher (the cipher is traced separately)', 'DESIGN.md 3/C14',
   'self-composition over goto-instrument --branch traces + SAFE/FAST equivalence, decided by CBMC')
+
+claim('C18',
+  'bounded model checking of thread interleavings (CBMC partial-order encoding; SC, TSO, PSO) of the real mt.c once/atomic primitives with 2-3 threads; for rng.c, whose shared pointer CBMC cannot encode concurrently, lock discipline (every kernel/allocator/source call under the mutex, mutex released on every path) and reference counting for every sequential API program of bounded length',
+  'trusted: CBMC concurrency encoding and memory models, __sync builtins atomic, pthread mutex correct; spin loops bounded by the unwinding limit without unwinding assertion', 'DESIGN.md 3/C18',
+  'CBMC partial-order concurrency encoding (SC/TSO/PSO) + sequential lock-discipline monitor')
